@@ -7,7 +7,7 @@ import struct
 from sa.astx import call_name, src
 from sa.selftest import Mutant, Silent
 from sa.source import AnalysisError
-from sa.props._lib_i import sect, COMPAT, BlockRaised, Raised, class_env, eval_block, interp, module_env, peval
+from sa.props._lib_i import sect, COMPAT, BlockRaised, FollowModule, Raised, bind_methods, class_env, eval_block, interp, module_env, peval
 
 PROPERTY = "C44"
 BANANA = "spread/banana.py"
@@ -43,6 +43,13 @@ def _exc_name(raised_text):
     return t.split("(")[0].strip()
 
 
+def _raised_name(ex):
+    """Class name of the exception behind a BlockRaised: a `raise X(...)` statement reached inside a followed helper, or a
+    Python exception raised by an evaluated expression."""
+    inner = str(ex.exc)
+    return _exc_name(inner) if isinstance(ex.exc, RuntimeError) and inner.startswith("raise ") else type(ex.exc).__name__
+
+
 class _Self:
     pass
 
@@ -57,7 +64,8 @@ def check(ctx):
     base = "twisted.spread.banana."
     ctx.check(len(set(tags.values())) == len(tags) and all(v >= high for v in tags.values()), "tags/distinct-high-bit", base + "<type byte constants>",
               f"type bytes {tags!r} must be pairwise distinct and >= {high!r} (prefix digits are < 0x80; a type byte below that is read as a digit)")
-    funcs = dict(COMPAT)
+    funcs = FollowModule(mod, dict(COMPAT), env0)     # explicit models + any other module-level helper of banana.py, interpreted on demand
+    banana_cls = ctx.cls(BANANA, "Banana")
     funcs["struct.pack"] = struct.pack
     funcs["struct.unpack"] = struct.unpack
 
@@ -111,8 +119,10 @@ def check(ctx):
         def limits(L):
             e = dict(env0)
             e[f_lim.args.args[1].arg] = L
+            e["self"] = _Self()
+            bind_methods(e, [banana_cls], funcs, skip={f_lim.name})
             eval_block(f_lim.body, e, funcs=funcs)
-            return e
+            return {k: v for k, v in e.items() if not (k.startswith("self.") and callable(v)) and k != "self"}
         q = base + "Banana.setPrefixLimit"
         for L in (default_limit, 5):
             e = limits(L)
@@ -157,10 +167,10 @@ def check(ctx):
             out = []
             e = dict(lim)
             e.update({"self.currentDialect": dialect, "self.outgoingSymbols": dict(out_v)})
-            enc = interp(f_e, funcs, e)
-            e["self._encode"] = lambda o, w: enc(_Self(), o, w)
+            e["self"] = _Self()
+            bind_methods(e, [banana_cls], funcs, only_missing=False)      # _encode and whatever private helpers it is split into
             try:
-                enc(_Self(), obj, out.append)
+                e["self." + f_e.name](obj, out.append)
             except Raised as ex:
                 return None, _exc_name(str(ex.exc))
             except BlockRaised as ex:       # raised inside a nested (recursive) _encode call, or by a modelled helper
@@ -226,19 +236,44 @@ def check(ctx):
         wire, err = encode(b"None", b"none")
         ctx.check(err is None and wire == b"\x04" + tags["STRING"] + b"None", "encode/vocab", q + " | vocabulary word, none dialect",
                   f"outside the pb dialect b'None' is sent as {(wire if err is None else err)!r}: the peer's decoder only accepts VOCAB in the pb dialect")
-        # every tag written has a decoder branch (reported by name)
-        written = {a.id for c in ast.walk(f_e) if isinstance(c, ast.Call) and call_name(c) == "write" for a in c.args if isinstance(a, ast.Name) and a.id in tags}
+        # which type bytes the encoder can emit (observed on sample values in both dialects, read back with a reference scanner)
+        def scan_tags(wire):
+            seen, i = set(), 0
+            while i < len(wire):
+                j = i
+                while j < len(wire) and wire[j] < 0x80:
+                    j += 1
+                if j >= len(wire):
+                    break
+                tb = wire[j:j + 1]
+                seen.add(tb)
+                n = 0
+                for k, d in enumerate(wire[i:j]):
+                    n += d << (7 * k)
+                i = j + 1 + (n if tb == tags["STRING"] else 8 if tb == tags["FLOAT"] else 0)
+            return seen
+        emitted_tags = set()
+        for dialect in (b"none", b"pb"):
+            for sample in ([0, -1, 2**31, -(2**31) - 1, 1.5, b"text", b"None", [b"x", [1]], ()],):
+                wire, err = encode(sample, dialect)
+                if err is None:
+                    emitted_tags |= scan_tags(wire)
         f_d = ctx.func(BANANA, "Banana.dataReceived")
-        handled = {c.id for x in ast.walk(f_d) if isinstance(x, ast.Compare) for c in [x.left] + x.comparators if isinstance(c, ast.Name) and c.id in tags}
-        for t in sorted(written):
-            ctx.check(t in handled, "tags/encoder-subset-of-decoder", f"{base}Banana.dataReceived | branch for {t}", f"_encode writes the type byte {t} but dataReceived has no branch for it")
-        ctx.floor("tags/encoder-subset-of-decoder", len(written), 6)
 
     # ---- senders: a value that is refused leaves nothing on the wire
     with sect(ctx, 'senders: refused values leave nothing on the wire'):
         cls_b = ctx.cls(BANANA, "Banana")
-        senders = [m for m in cls_b.body if isinstance(m, ast.FunctionDef) and m.name != f_e.name
-                   and any(isinstance(c, ast.Call) and call_name(c) == "self." + f_e.name for c in ast.walk(m))]
+        meths_b = {m.name: m for m in cls_b.body if isinstance(m, ast.FunctionDef)}
+
+        def callees(name):
+            return {call_name(c)[5:] for c in ast.walk(meths_b[name]) if isinstance(c, ast.Call) and (call_name(c) or "").startswith("self.") and call_name(c)[5:] in meths_b}
+        part_of_encoder, work = {f_e.name}, [f_e.name]
+        while work:                                    # private helpers the encoder is split into are not senders
+            for c in callees(work.pop()):
+                if c not in part_of_encoder:
+                    part_of_encoder.add(c)
+                    work.append(c)
+        senders = [m for n_, m in meths_b.items() if n_ not in part_of_encoder and "self." + f_e.name in {call_name(c) for c in ast.walk(m) if isinstance(c, ast.Call)}]
         ctx.floor("encode/refused-atomically", len(senders), 1)
         for m in senders:
             mq = base + "Banana." + m.name
@@ -250,11 +285,10 @@ def check(ctx):
                 writes = []
                 e = dict(lim)
                 e.update({"self.currentDialect": dialect, "self.outgoingSymbols": dict(out_v)})
-                enc = interp(f_e, funcs, e)
-                e["self._encode"] = lambda o, w: enc(_Self(), o, w)
                 me = dict(e)
                 me.update({"self": _Self(), params[0]: obj, "self.transport.write": writes.append,
-                           "self.transport.writeSequence": lambda seq: writes.extend(seq), "self._encode": lambda o, w: enc(_Self(), o, w)})
+                           "self.transport.writeSequence": lambda seq: writes.extend(seq)})
+                bind_methods(me, [banana_cls], funcs, skip={m.name})
                 try:
                     r = eval_block(m.body, me, funcs=funcs)
                     err = _exc_name(r.raised)
@@ -302,13 +336,14 @@ def check(ctx):
             e.update({"self": _Self(), "self.buffer": b"", "self.listStack": stack, "self.gotItem": lambda item: gi(_Self(), item), "self.prefixLimit": limit,
                       "self.incomingVocabulary": dict(in_v), "self.currentDialect": dialect, chunk_p: buffer})
             try:
+                bind_methods(e, [banana_cls], funcs, skip={f_d.name})
                 eval_block(pre, e, funcs=funcs)
                 bufvars = [k for k, v in e.items() if k not in cenv and k != chunk_p and not k.startswith("self") and isinstance(v, bytes) and v == buffer]
                 if len(bufvars) != 1:
                     raise AnalysisError(f"{q}: statements before the loop do not bind the working buffer")
                 r = eval_block(loop.body, e, funcs=funcs)
             except BlockRaised as ex:
-                return {"raised": type(ex.exc).__name__}
+                return {"raised": _raised_name(ex), "delivered": delivered, "stack": stack}
             return {"buffer": e[bufvars[0]], "stack": stack, "delivered": delivered, "returned": r.returned, "raised": _exc_name(r.raised), "saved": e["self.buffer"]}
 
         def want_step(case, buffer, expect, why="", **kw):
@@ -359,6 +394,12 @@ def check(ctx):
         ctx.check(got.get("raised") is not None and not got.get("delivered"), "decode/step", f"{q} | VOCAB outside pb dialect refused", f"a VOCAB item outside the pb dialect gives {got!r}")
         got = step(b"\x01\x88Z")
         ctx.check(got.get("raised") is not None and not got.get("delivered"), "decode/step", f"{q} | unknown type byte refused", f"an unknown type byte gives {got!r} (it must not be skipped silently)")
+        names = {v: k for k, v in tags.items()}
+        for tb in sorted(emitted_tags):
+            got = step(b"\x01" + tb + b"\x00" * 8, dialect=b"pb")
+            ctx.check(got.get("raised") != "NotImplementedError" and tb in names, "tags/encoder-subset-of-decoder", f"{q} | understands {names.get(tb, tb)}",
+                      f"the encoder emits the type byte {names.get(tb, tb)} ({tb!r}) but the decoder answers {got!r} to it")
+        ctx.floor("tags/encoder-subset-of-decoder", len(emitted_tags), 6)
         # prefix limit, both paths, with a small limit so that the boundary is cheap to state
         for lim_ in (3, L):
             ones = b"\x01" * lim_
@@ -393,12 +434,13 @@ def check(ctx):
             env.update(instance_attrs(limit))
             env.update({"self": _Self(), "self.buffer": b"", "self.listStack": stack, "self.gotItem": lambda item: gi(_Self(), item), "self.prefixLimit": limit,
                         "self.incomingVocabulary": dict(in_v), "self.currentDialect": b"none"})
+            bind_methods(env, [banana_cls], funcs, skip={f_d.name})
             for c in chunks:
                 env[chunk_p] = c
                 try:
                     r = eval_block(f_d.body, env, funcs=funcs)
                 except BlockRaised as ex:
-                    return f"raises {type(ex.exc).__name__}"
+                    return f"raises {_raised_name(ex)}"
                 if r.raised:
                     return r.raised
             return delivered
@@ -472,5 +514,13 @@ SILENT = [
     Silent("prefix-limit-by-position", BANANA, "            if len(num) > self.prefixLimit:\n", "            if pos > self.prefixLimit:\n"),
     Silent("encode-into-list-buffer", BANANA, "        encodeStream = BytesIO()\n        self._encode(obj, encodeStream.write)\n        value = encodeStream.getvalue()\n        self.transport.write(value)\n",
            "        parts = []\n        self._encode(obj, parts.append)\n        self.transport.write(b\"\".join(parts))\n"),
+    Silent("encode-int-range-check-extracted", BANANA, "            if obj < self._smallestLongInt or obj > self._largestLongInt:\n                raise BananaError(\"int is too large to send (%d)\" % (obj,))\n",
+           "            self._checkRange(obj)\n",
+           more=[(BANANA, "    def _encode(self, obj, write):\n", "    def _checkRange(self, value):\n        if not self._smallestLongInt <= value <= self._largestLongInt:\n            raise BananaError(\"int is too large to send (%d)\" % (value,))\n\n    def _encode(self, obj, write):\n")]),
+    Silent("decoder-size-check-helper", BANANA, "                if num > SIZE_LIMIT:\n                    raise BananaError(\"Security precaution: String too long.\")\n", "                _refuseOversized(num, \"String\")\n",
+           more=[(BANANA, "class Banana(protocol.Protocol, styles.Ephemeral):\n", "def _refuseOversized(count, what):\n    if count > SIZE_LIMIT:\n        raise BananaError(\"Security precaution: %s too long.\" % (what,))\n\n\nclass Banana(protocol.Protocol, styles.Ephemeral):\n")]),
+    Silent("decoder-int-branches-share-a-method", BANANA, "            elif typebyte == INT:\n                buffer = rest\n                num = b1282int(num)\n                gotItem(num)\n            elif typebyte == LONGINT:\n                buffer = rest\n                num = b1282int(num)\n                gotItem(num)\n",
+           "            elif typebyte in (INT, LONGINT):\n                buffer = rest\n                self._deliverInteger(num, 1)\n",
+           more=[(BANANA, "    buffer = b\"\"\n\n    def dataReceived(self, chunk):\n", "    buffer = b\"\"\n\n    def _deliverInteger(self, digits, sign):\n        self.gotItem(sign * b1282int(digits))\n\n    def dataReceived(self, chunk):\n")]),
     Silent("b1282int-shift-form", BANANA, "        i += n * e\n        e <<= 7\n", "        i = i + (n * e)\n        e = e * 128\n"),
 ]
